@@ -171,6 +171,14 @@ def generate(ctx):
         for patch, tags in junk_stream(rng, doc, quick):
             cs = 1 if rng.random() < 0.7 else 0
             cases.append(case(cs, doc, patch, tags))
+    # the number comparison of `test`: pairs on both sides of the relative tolerance at every magnitude (tiny, subnormal, around 1, huge)
+    if ctx.get('seed_index', 0) == 0:
+        for x, y in G.NUM_PAIRS + [(1e-20, 2e-20), (1e-20, 0), (1e-17, -1e-17), (0.25, 0.25000000000000006), (1e-5, 1.0000000000000002e-5)]:
+            for a, b in ((x, y), (y, x), (x, x)):
+                doc = Obj([('n', a), ('l', [1, a])])
+                for ops in ([G.mk_op('test', '/n', b)], [G.mk_op('test', '/l/1', b)], [G.mk_op('test', '/l', [1, b])], [G.mk_op('test', '', Obj([('l', [1, b]), ('n', b)]))],
+                            [G.mk_op('test', '/n', b), G.mk_op('remove', '/l')]):
+                    cases.append(case(1, copy.deepcopy(doc), ops, ['test-number-pairs']))
     # patch documents and documents whose members were added with cJSON_AddItemToObjectCS (constant keys are borrowed memory)
     for c in rng.sample(cases, min(len(cases), 600 if quick else 3000)) + [c for c in cases if 'root' in c.info['tags']]:
         cases.append(constified(c, rng))
